@@ -5,6 +5,7 @@ import DC.Model.StmtLoop
 import DC.Spec.Tree
 import DC.Spec.Embed
 import DC.Model.ExplainSelect
+import DC.Model.ExplainDDL
 import DC.Model.Lexer
 import DC.Model.LitDriver
 import DC.Model.Types
@@ -22,6 +23,7 @@ def handlers : List (String → List String → Option String) := [
   DC.Spec.Tree.handle,       -- c04 (ops `tree`, `artefacts`)
   DC.Spec.Embed.handle,      -- c07 (op `embed`)
   DC.Model.ExplainSelect.handle, -- c04 (ops `selshape`, `selshapeinh`, `unionshape`)
+  DC.Model.ExplainDDL.handle, -- c04 DDL pairs (ops `altershape`, `altername`, `statshape`, `projshape`, `projselshape`, `colshape`, `idxshape`, `createshape`, `colsdefshape`, `storageshape`, `innerstorageshape`)
   DC.Lexer.handle,           -- c12/c13 (ops `lex`, `uni`)
   DC.Model.LitDriver.handle, -- c09 (ops `c09num`, `c09str`, `c09float`, `c09nest`, `c09dec`)
   DC.Types.handle,           -- c18 (ops `c18`, `c18ty`)
